@@ -460,8 +460,87 @@ def run_recursion_from_body(w) -> None:
             loaded.unload()
 
 
+INSIDE_ANOTHER_CHECK_SOURCE = '''
+import icontract
+
+ENTERED = []
+
+
+@icontract.require(lambda x: x > 0)
+{a}def helper(x):
+    ENTERED.append(("helper", x))
+    return x
+
+
+{a}def try_all(values):
+    out = []
+    for value in values:
+        try:
+            out.append({w}helper(value))
+        except icontract.ViolationError:
+            out.append("refused")
+    return out
+
+
+@icontract.invariant(lambda self: True)
+class Holder:
+    {a}def in_a_method_body(self, values):
+        """The instance stays marked for the whole body: the calls of ``helper`` are made while a check is in flight."""
+        return {w}try_all(values)
+
+
+{a}def all_tried(values):
+    OUTCOMES.append({w}try_all(values))
+    return True
+
+
+OUTCOMES = []
+
+
+@icontract.require(all_tried)
+{a}def in_a_condition_of_another_function(values):
+    return OUTCOMES[-1]
+'''
+
+
+def run_calls_inside_another_check(w) -> None:
+    """Several calls of one contracted function made while ANOTHER check of the flow is in flight (in the body of a method of a class
+    with invariants, in a condition of another function): each of them is gated by its own precondition, also the second and third."""
+    for is_async in (False, True):
+        loaded = prog.load_source(INSIDE_ANOTHER_CHECK_SOURCE.format(a="async " if is_async else "", w="await " if is_async else ""), w.scratch())
+        mod = loaded.module
+        try:
+            for tag, call in (("method-body-of-a-class-with-invariants", lambda vs: mod.Holder().in_a_method_body(vs)),
+                              ("condition-of-another-function", lambda vs: mod.in_a_condition_of_another_function(vs))):
+                for values in ([1, -5], [-5, 1, -6], [1, 2, -3, 4, -1]):
+                    del mod.ENTERED[:]
+                    try:
+                        res = call(list(values))
+                        if is_async:
+                            res = probe.drive(res)
+                        outcome = res
+                    except BaseException as err:  # pylint: disable=broad-except
+                        outcome = "raised {}: {}".format(type(err).__name__, str(err)[:100])
+                    want = [v if v > 0 else "refused" for v in values]
+                    want_entered = [("helper", v) for v in values if v > 0]
+                    w.count("pre_evaluations", len(values))
+                    w.count("calls_pre_false", sum(1 for v in values if v <= 0))
+                    w.count("calls_pre_true", sum(1 for v in values if v > 0))
+                    w.count("calls_inside_another_check", len(values))
+                    w.case(("inside-another-check", tag, tuple(values), is_async))
+                    if outcome != want or list(mod.ENTERED) != want_entered:
+                        w.violation("C01/body-entered", "{}{} with {}: outcomes {} and bodies entered {} (expected {} and {}): every call is gated by its "
+                                    "own precondition, whatever was checked before it in the same flow".format(
+                                        "async " if is_async else "", tag, values, outcome, list(mod.ENTERED), want, want_entered),
+                                    {"inside_another_check": tag, "async": is_async})
+        finally:
+            loaded.unload()
+
+
 def run(w) -> None:
     w.exhaustive = False
+    if w.shard == 2 % w.nshards:
+        run_calls_inside_another_check(w)
     if w.shard == 0:
         run_signatures(w)
     if w.shard == 1 % w.nshards:
@@ -472,6 +551,9 @@ def run(w) -> None:
 
 
 def replay(case, w) -> None:
+    if "inside_another_check" in case:
+        run_calls_inside_another_check(w)
+        return
     if "signature" in case:
         run_signatures(w)
         return
